@@ -397,3 +397,47 @@ func checkLparenStartersListed(p *Prog, r *Result, rule string) {
 		r.Bad(rule, "syntax.(Printer).command#no clause starts with (", cmdFD.Pos(), "no command clause was found to begin with \"(\": the rule no longer sees the construct it is about")
 	}
 }
+
+// R01i: Printer.wroteSemi means "a separator was written for the statement that is being printed"; stmtList, semiRsrv
+// and semiOrNewl leave out the `;` they would write when it is set. Printer.command also sets it for a purpose of its
+// own — so that no `;` is written before the closing word of a construct that is empty or already ends in `;;` — and
+// what follows the construct on the same line still needs its separator. Every store of true in Printer.command is
+// therefore followed, on every path to the function's return, by a store of false.
+func checkSeparatorFlagCleared(p *Prog, r *Result, rule string) int {
+	pkg := p.Pkg("syntax")
+	info := pkg.TypesInfo
+	fd := p.FuncDecl("syntax", "Printer.command")
+	if fd == nil {
+		r.Undecided(rule, "syntax.(Printer).command", token.NoPos, "anchor not found")
+		return 0
+	}
+	g := NewFGraph(info, fd.Body, nil)
+	store := func(nd ast.Node, want string) bool {
+		as, ok := nd.(*ast.AssignStmt)
+		if !ok || len(as.Lhs) != len(as.Rhs) {
+			return false
+		}
+		for i, l := range as.Lhs {
+			if fv := selectorField(info, l); fv != nil && fv.Name() == "wroteSemi" {
+				if tv, ok := info.Types[as.Rhs[i]]; ok && tv.Value != nil && tv.Value.ExactString() == want {
+					return true
+				}
+			}
+		}
+		return false
+	}
+	n := 0
+	for _, b := range g.Blocks {
+		for i, nd := range b.Nodes {
+			if !store(nd, "true") {
+				continue
+			}
+			n++
+			key := fmt.Sprintf("%s#store %d of wroteSemi = true is undone before the command ends", funcKey("syntax", fd), n)
+			ok, _ := g.MustPass(b, i, g.Exit, func(m ast.Node) bool { return store(m, "false") }, nil)
+			r.Check(ok, rule, key, nd.Pos(), "every path from the store to the function's return stores false",
+				"Printer.command sets wroteSemi — to keep a `;` from being written before the construct's own closing word — and can return with it still set: the statement list then takes it for the separator of the statement that follows on the same line and writes none, as in `case x in a) foo ;; esac bar` under SingleLine, which does not parse")
+		}
+	}
+	return n
+}
